@@ -88,6 +88,12 @@ pub fn run_composite(rep: &mut Report, p: &Params, xs: &[In]) {
             In::B(b) => m = m.max(b.h.abs()).max(b.l.abs()).max(b.c.abs()),
         }
         let tq = tau(t);
+        if t == xs.len() / 3 + 2 {
+            comp.perturb(1);
+        }
+        if t == (2 * xs.len()) / 3 + 2 {
+            comp.perturb(0);
+        }
         let out = match comp.feed(x) {
             Ok(o) => o,
             Err(_) => return,
